@@ -26,6 +26,13 @@ package contractcourt
 //       again after a restart is not judged: that hand-off carries no stage
 //       information (htlcTimeoutResolver.resolveSecondLevelTxLegacy repeats
 //       it unconditionally by design and the nursery keys by outpoint).
+//
+// What the real utxo nursery (arm "legacy+nursery") adds to both judgements is
+// in closesim_c13_nursery.go (judgeSelf / judgeAgainstReference there), with
+// one relaxation of its own:
+//   R7  a store entry left behind for an output that HAS been swept (R3's
+//       repeated hand-off re-inserts an output that had already graduated) is
+//       counted, not judged; an output left UNSWEPT is judged.
 
 import (
 	"fmt"
@@ -54,6 +61,7 @@ type zzC13Outcome struct {
 	labels    []map[int]string
 	attempts  int
 	earlyMark string
+	nurse     *zzNurseOutcome // real-nursery arm only
 }
 
 func (o *zzC13Outcome) label(epochIdx, k int) string {
@@ -137,8 +145,19 @@ func (ex *zzC13Exec) finish() {
 			o.incubated[e.what]++
 		}
 	}
+	if ex.nurse != nil {
+		o.nurse = ex.nurse.outcome()
+	}
 	if ex.ref == nil {
 		r.Logf("  outcome: %s", o.summary())
+		if o.nurse != nil {
+			var ops []string
+			for op, h := range o.nurse.hist {
+				ops = append(ops, op+" "+h)
+			}
+			sort.Strings(ops)
+			r.Logf("  nursery outcome: outputs=%v publishes=%d sweeps=%d report=%s", ops, len(o.nurse.publishes), len(o.nurse.sweeps), o.nurse.report)
+		}
 	}
 	r.Add("write_txs", int64(w.kv.Writes()))
 	if w.inc != nil && w.inc.sched.ties > 0 {
@@ -222,6 +241,9 @@ func (ex *zzC13Exec) judgeSelf() {
 	}
 	if o.fully && len(o.left) > 0 {
 		r.Fail("marked-resolved-early", "%s: channel marked fully closed but contracts %v are still in the log", ex.where(), o.left)
+	}
+	if ex.nurse != nil {
+		ex.nurse.judgeSelf(o.nurse)
 	}
 }
 
@@ -400,6 +422,9 @@ func (ex *zzC13Exec) judgeAgainstReference() {
 	}
 
 	ex.judgeStages()
+	if ex.nurse != nil && ref.nurse != nil && o.fully == ref.fully {
+		ex.nurse.judgeAgainstReference(o.nurse, ref.nurse)
+	}
 }
 
 func zzC13MsgKind(m map[string]int) string {
